@@ -2,6 +2,7 @@
 //! writes, per case, the request line for the Lean model driver, the implementation's
 //! canonical answer, and the verdict of the property predicate on the implementation.
 mod counter;
+mod dump;
 mod globfact;
 mod grammar;
 mod props;
@@ -9,7 +10,7 @@ mod proto;
 mod rng;
 
 fn usage() -> ! {
-    eprintln!("usage: sgverif gen <property> <quick|thorough|search> <seed> <outdir>");
+    eprintln!("usage: sgverif gen <property> <quick|thorough|search> <seed> <outdir> | sgverif dump-tables");
     std::process::exit(2)
 }
 
@@ -44,6 +45,7 @@ fn main() {
             }
         }
         "c18-child" if args.len() == 6 => props::c18::child(&args[2..]),
+        "dump-tables" => std::process::exit(dump::run()),
         _ => usage(),
     }
 }
